@@ -2,8 +2,8 @@
 
 Real code executed: XtcePacketDefinition.from_xtce and every from_xml reader, NamespaceAwareElement (class-level namespace map /
 prefix, element_prefix, add_namespace_to_xpath, find / findall / iterfind).
-Configuration variables decided by the executor (ctx.choose, all values explored): namespace convention (prefix 'xtce', prefix
-of another name, default namespace, no namespace); lexical variant (as is, inter-element whitespace everywhere, a comment at ONE
+Configuration variables decided by the executor (ctx.choose, all values explored): namespace convention (prefix 'xtce', prefixes of other
+names including names that are themselves the beginning of an XTCE element name, default namespace, no namespace); lexical variant (as is, inter-element whitespace everywhere, a comment at ONE
 inter-element position - every position of the document -, comments at all positions at once); history of up to two prior loads
 from an alphabet of five (another document in each convention, a malformed document, a document that fails half-way through).
 Oracle: an independent structural snapshot (namespace bookkeeping fields excluded, since they record the spelling) must equal the
@@ -34,7 +34,7 @@ META = {
              "structurally identical to the one obtained from the canonical spelling loaded first in a fresh process.  The pure-Python XPath "
              "prefixing is additionally checked against a regular-expression reference for every path literal the library uses.",
     "trusted": "lxml / libxml2; the structural snapshot; the renderings are produced with plain lxml (checks/xmlvar.py)",
-    "bounds": {"quick": {"templates": TEMPLATES, "product": "4 conventions x (3 + #gaps) lexical variants x 31 histories, stride 11"},
+    "bounds": {"quick": {"templates": TEMPLATES + ["JPSS (stride 101)"], "product": "7 conventions (prefix xtce / q7 / Unit / P / SequenceContainer, default namespace, none) x (3 + #gaps) lexical variants x 31 histories, stride 11"},
                "thorough": {"templates": TEMPLATES + ["T4", "T5", "JPSS"], "product": "complete for T1, T2, T6; stride 5 for the others"}},
     "stubs": ["none (lxml runs natively; the executor only picks configuration points)"],
     "outside_claim": ["comments / whitespace INSIDE text-carrying leaf elements", "processing instructions, CDATA, entity tricks", "histories longer than two loads",
@@ -138,12 +138,13 @@ class Spelling(Harness):
         xml, _, _ = templates.get(t)
         ngaps = len(xmlvar.gap_positions(xmlvar.canonical_root(xml)))
         H = histories()
-        total = 4 * (3 + ngaps) * len(H)
+        NC = len(xmlvar.CONVENTIONS)
+        total = NC * (3 + ngaps) * len(H)
         stride, phase = p.get("stride", 1), p.get("phase", 0)
         k = ctx.choose("point", (total + stride - 1) // stride) * stride + phase % stride
         k = min(k, total - 1)
-        conv = xmlvar.CONVENTIONS[k % 4]
-        k //= 4
+        conv = xmlvar.CONVENTIONS[k % NC]
+        k //= NC
         lex = k % (3 + ngaps)
         hist = H[k // (3 + ngaps)]
         outcome, dg, desc = run_sequence(t, conv, lex, hist)
@@ -163,8 +164,8 @@ class XPath(Harness):
         from space_packet_parser import common
         paths = self.job["params"]["paths"]
         i = ctx.choose("path", len(paths))
-        pi = ctx.choose("prefix", 3)
-        prefix = [None, "xtce", "q7"][pi]
+        PRE = [None, "xtce", "q7", "Unit", "P", "SequenceContainer"]
+        prefix = PRE[ctx.choose("prefix", len(PRE))]
         cls = common.NamespaceAwareElement
         saved = (cls._nsmap, cls._ns_prefix)
         try:
@@ -215,8 +216,8 @@ def jobs(tier):
     seed = int(os.environ.get("VERIF_SEED", "0") or 0)
     out = []
     if tier == "quick":
-        for t in TEMPLATES:
-            out.append({"name": f"spelling-{t}", "h": "spelling", "params": {"template": t, "stride": 11, "phase": seed}, "split": 64, "chunk": 60, "max_paths": 400000,
+        for t in TEMPLATES + ["JPSS"]:
+            out.append({"name": f"spelling-{t}", "h": "spelling", "params": {"template": t, "stride": 11 if t != "JPSS" else 101, "phase": seed}, "split": 64, "chunk": 60, "max_paths": 400000,
                         "must_reach": ["loaded"]})
     else:
         for t in TEMPLATES + ["T4", "T5", "JPSS"]:
